@@ -1,6 +1,6 @@
 (* C05 - Surrogate-outcome / transport (TRSO) estimands equal the target effect. *)
 From Coq Require Import List Bool.
-From Y0 Require Import Base.ListSet Graph.MixedGraph Graph.Closure Dsl.Syntax Dsl.Build Dsl.Canon Alg.Id Alg.Trso Proofs.TrsoP Proofs.IdTotalP Proofs.TrsoIdP.
+From Y0 Require Import Base.ListSet Graph.MixedGraph Graph.Closure Dsl.Syntax Dsl.Build Dsl.Canon Alg.Id Alg.Trso Proofs.TrsoP Proofs.IdTotalP Proofs.TrsoIdP Sem.Scm Proofs.IdSemP.
 Import ListNotations.
 
 (* Soundness over multi-domain SCM families is not yet proved (DESIGN.md 5/C05). Proved on the model: *)
@@ -53,3 +53,34 @@ Print Assumptions C05_without_domains_trso_gives_ids_verdict_or_raises.
 Print Assumptions C05_without_target_interventions_the_answer_is_the_marginal.
 Print Assumptions C05_queries_naming_unknown_nodes_are_rejected.
 Print Assumptions C05_overlapping_outcomes_and_interventions_are_rejected.
+
+(* Lines 2 and 3 of TRSO use, in the current domain's selection diagram g, the sets ID uses (anc = An(Y)_g; add = the nodes that are no ancestors
+   of Y once the edges into X are cut). Against the formal SCM semantics (Sem/Scm.v; a transport node is an ordinary parentless node of g) they
+   are justified state by state, hence in every SCM of that domain over g: *)
+Theorem C05_line2_the_outcomes_depend_on_their_ancestral_model_only
+  (g : mg nat) {D : Type} (U : Type) (f : nat -> (nat -> D) -> U -> D) (rho : nat * bool -> D) order :
+  local g U f -> is_topo g order = true ->
+  forall Y ivs u x x',
+    solution g U f rho ivs u x ->
+    solution (subgraph g (ancestors_inclusive g Y)) U f rho (restrict_ivs (ancestors_inclusive g Y) ivs) u x' ->
+    forall y, In y Y -> In y (nodes g) -> x y = x' y.
+Proof.
+  intros Hl Ho Y ivs u x x' Hs Hs' y Hy Hn.
+  exact (line2_same_values g U f rho Hl order Ho Y ivs u x x' Hs Hs' y Hn (outcomes_in_their_ancestors g Y y Hy)).
+Qed.
+
+Theorem C05_line3_adds_treatments_without_effect_on_the_outcomes
+  (g : mg nat) {D : Type} (U : Type) (f : nat -> (nat -> D) -> U -> D) (rho : nat * bool -> D) order :
+  local g U f -> is_topo g order = true ->
+  forall X Y ivs extra u x x',
+    (forall v, In v X -> In v (map fst ivs)) ->
+    (forall i, In i extra -> In (fst i) (get_no_effect_on_outcomes g X Y)) ->
+    solution g U f rho ivs u x -> solution g U f rho (ivs ++ extra) u x' ->
+    forall y, In y Y -> In y (nodes g) -> x y = x' y.
+Proof.
+  intros Hl Ho X Y ivs extra u x x' HX He Hs Hs' y Hy Hn.
+  exact (line3_same_values g U f rho Hl order Ho X Y ivs extra u x x' HX He Hs Hs' y Hn (outcomes_in_their_ancestors _ Y y Hy)).
+Qed.
+
+Print Assumptions C05_line2_the_outcomes_depend_on_their_ancestral_model_only.
+Print Assumptions C05_line3_adds_treatments_without_effect_on_the_outcomes.
